@@ -230,8 +230,9 @@ def _judge(case, got, drv):
                 nexact += 1
                 if a != float(Fraction(sm, n)):
                     bad.append(i)
-            elif abs(Fraction(a) * n * sc - sm) > 2 * (n + 1) * u * asum:
-                # |computed sum - sum| <= ((1+u)^(n-1) - 1) * sum of magnitudes, one more rounding for the division
+            elif abs(Fraction(a) * n * sc - sm) > 2 * (n + 2) * u * asum:
+                # |computed sum - sum| <= ((1+u)^(n-1) - 1) * sum of magnitudes, one more rounding for the division and (64-bit
+                # integer samples beyond 2^53) one for the conversion of each sample to double
                 bad.append(i)
         case['_exact'] = nexact
         case['_undefined'] = sum(1 for n in ns if n == 0)
@@ -344,6 +345,11 @@ def evaluate(cases):
             tags['float_values'] = 'quarter-integers'
         if case['kind'] == 'find':
             tags['find'] = case.get('tag', 'random')
+            tags['find_values'] = case.get('values', 'small')
+        big = 2 ** 24 if case['dtype'] == 'float32' else 2 ** 53
+        if case['kind'] in ('rank', 'median', 'mean', 'meanf', 'tm', 'find') and not case.get('enc') \
+                and any(abs(v) >= big * case.get('scale', 1) for v in case['data']):
+            tags['magnitude'] = '>=2^63' if any(abs(v) >= 2 ** 63 for v in case['data']) else '>=2^53 (float32: 2^24)'
         if case.get('_undefined'):
             tags['pixels_without_samples'] = 'yes'
         if case.get('_skipped'):
@@ -375,6 +381,30 @@ def _corpus():
     return out
 
 
+def _huge_palette(dtype):
+    """magnitudes at and beyond the point where a double (float: a single) stops being exact, and the dtype limits:
+    'compute in double' rewrites of an integer kernel merge 2^53 and 2^53+1, lose 2^63.., saturate at the limits"""
+    if dtype == 'float64':
+        return [2 ** 53, 2 ** 53 + 2, 2 ** 60, 2 ** 1000, -2 ** 53, -(2 ** 53 + 2)]           # exactly representable
+    if dtype == 'float32':
+        return [2 ** 24, 2 ** 24 + 2, 2 ** 100, -2 ** 24, -(2 ** 24 + 2)]
+    if dtype == 'bool':
+        return [1]
+    lo, hi = gen.dt_range(dtype)
+    vals = [hi, hi - 1, lo, lo + 1, hi // 2 + 1]
+    for b in (24, 53, 62, 63):
+        vals += [2 ** b, 2 ** b + 1, 2 ** b + 2, -(2 ** b + 1)]
+    return sorted({v for v in vals if lo <= v <= hi and v != 0})
+
+
+def _huge_data(rng, n, dtype, density=None):
+    pal = _huge_palette(dtype)
+    pal = rng.sample(pal, min(len(pal), rng.randint(1, 3)))
+    d = density if density is not None else rng.choice([0.15, 0.3, 0.6])
+    lo = 0 if dtype.startswith('uint') or dtype == 'bool' else -1
+    return [rng.choice(pal) if rng.random() < d else rng.randint(lo, 1) for _ in range(n)]
+
+
 def _data(rng, n, dtype, small=False):
     dt = np.dtype(dtype)
     if dt.kind == 'f':
@@ -385,6 +415,8 @@ def _data(rng, n, dtype, small=False):
         lo, hi = gen.dt_range(dtype)
         return [rng.randint(max(lo, -5), min(hi, 9)) for _ in range(n)]
     style = rng.random()
+    if style > 0.8 and dt.itemsize >= 4:                # values at / beyond 2^24, 2^53, 2^63 and the limits, with ties
+        return _huge_data(rng, n, dtype)
     if style < 0.4:                                     # many ties
         lo, hi = gen.dt_range(dtype)
         return [rng.randint(max(lo, -2), min(hi, 3)) for _ in range(n)]
@@ -431,11 +463,22 @@ def _find_cases(rng, tier):
     if tier == 'quick':
         shapes = [(1, 1), (2, 2)] + rng.sample(shapes[1:], 3)
     for (n0, n1) in shapes:
-        for variant in range(2):
+        for variant in range(3):
             dtype = rng.choice(DTYPES)
             hi = 1 if variant == 0 or dtype == 'bool' else 5       # binary images: many repeated occurrences
             data = [rng.randint(0, hi) for _ in range(n0 * n1)]
-            A = np.array(data).reshape(n0, n1)
+            if variant == 2:
+                # a periodic row pattern (many true occurrences per row) with values at / beyond 2^53, 2^63 and the dtype
+                # limits sprinkled in: occurrences to the right of (and below) a huge value must still be found
+                dtype = rng.choice(['int64', 'uint64', 'int64', 'uint64', 'float64', 'float32', 'int32', 'uint16'])
+                pal = _huge_palette(dtype)
+                per = rng.choice([1, 2, 3])
+                pat = [rng.randint(0, 2) for _ in range(per)]
+                data = [pat[(i % n1) % per] for i in range(n0 * n1)]
+                for r_ in range(n0):
+                    if rng.random() < 0.7:
+                        data[r_ * n1 + rng.choice([0, 0, min(1, n1 - 1), rng.randrange(n1)])] = rng.choice(pal)
+            A = np.array(data, dtype=object).reshape(n0, n1)
             sizes = [(t0, t1) for t0 in range(1, n0 + 1) for t1 in range(1, n1 + 1)]
             if tier == 'quick' and len(sizes) > 9:
                 sizes = rng.sample(sizes, 7) + [(n0, n1), (1, n1)]
@@ -448,11 +491,13 @@ def _find_cases(rng, tier):
                     tag = ('whole' if (t0, t1) == (n0, n1) else 'flush' if (y == n0 - t0 or x == n1 - t1) else 'interior')
                     base = dict(kind='find', dtype=dtype, shape=[n0, n1], data=data, bshape=[t0, t1],
                                 layout=rng.choice(gen.LAYOUTS), blayout=rng.choice(['C', 'C', 'F', 'strided']))
+                    if variant == 2:
+                        base['values'] = 'huge'
                     out.append(dict(base, bc=[int(v) for v in T.ravel().tolist()], tag=tag))
                     if rng.random() < 0.25:
                         P = T.copy()
                         i = rng.randrange(P.size)
-                        P.flat[i] = (P.flat[i] + 1) % (hi + 1)
+                        P.flat[i] = (P.flat[i] + 1) % (hi + 1) if variant < 2 else (0 if P.flat[i] else 1)
                         out.append(dict(base, bc=[int(v) for v in P.ravel().tolist()], tag='perturbed'))
             # templates that cannot fit
             out.append(dict(kind='find', dtype=dtype, shape=[n0, n1], data=data, bshape=[n0 + 1, 1], bc=[0] * (n0 + 1),
@@ -604,14 +649,21 @@ def cases(rng, tier):
             # mean_filter on float images with arbitrary dyadic values of both signs (cancellation): the double accumulation
             # in scan order, bit for bit against the generic kernel; against the exact mean within the summation bound
             bshape, bc = _bc(rng, shape)
-            fdt = rng.choice(['float32', 'float64'])
+            fdt = rng.choice(['float32', 'float64', 'float32', 'float64', 'int64', 'uint64'])
             sexp = rng.choice([0, 0, 3, 10])
             top = 2 ** 24 - 1 if fdt == 'float32' else 2 ** 52
             values = rng.choice(['small', 'medium', 'significand', 'mixed'])
             def kv():
                 mag = dict(small=9, medium=3000, significand=top)[values if values != 'mixed' else rng.choice(['small', 'medium', 'significand'])]
                 return rng.randint(-mag, mag)
-            out.append(dict(kind='meanf', dtype=fdt, shape=shape, data=[kv() for _ in range(n)], bshape=bshape, bc=bc,
+            if fdt in ('int64', 'uint64'):
+                # 64-bit integers at / beyond 2^53 and 2^63: the conversion of each sample to double rounds, the double
+                # accumulation rounds; bit for bit against the same steps, bounded against the exact integer mean
+                sexp, values = 0, 'huge'
+                mdata = _huge_data(rng, n, fdt)
+            else:
+                mdata = [kv() for _ in range(n)]
+            out.append(dict(kind='meanf', dtype=fdt, shape=shape, data=mdata, bshape=bshape, bc=bc,
                             scale=2 ** sexp, mode=mode if rng.random() < 0.7 else 'ignore', layout=layout, values=values))
         elif r < 0.71:
             rows, cols = rng.randint(1, 9), rng.randint(1, 9)
@@ -631,8 +683,11 @@ def cases(rng, tier):
                 # large differences: sums (8/16-bit: also the promoted int products, signed: the differences themselves)
                 # overflow the dtype; judged exactly against the wrapping model
                 lo_, hi_ = gen.dt_range(dtype)
-                values = rng.choice(['full-range', 'extremes', 'mid'])
+                values = rng.choice(['full-range', 'extremes', 'mid', 'huge'] if np.dtype(dtype).itemsize >= 4 else ['full-range', 'extremes', 'mid'])
+                hp = _huge_palette(dtype)
                 def v():
+                    if values == 'huge':
+                        return rng.choice(hp) if rng.random() < 0.5 else rng.randint(max(lo_, -2), 2)
                     if values == 'extremes':
                         return rng.choice([lo_, hi_, lo_ + 1, hi_ - 1, 0, hi_ // 2])
                     if values == 'mid':            # differences around sqrt(range): some pixels overflow, some do not
@@ -650,6 +705,14 @@ def cases(rng, tier):
             n0, n1 = rng.randint(1, 7), rng.randint(1, 7)
             t0, t1 = rng.randint(1, n0), rng.randint(1, n1)
             data = [rng.randint(0, 1) for _ in range(n0 * n1)]
+            if rng.random() < 0.4:
+                fdt = rng.choice(['int64', 'uint64', 'float64', 'int64', 'uint64', 'int32', 'float32'])
+                data = _huge_data(rng, n0 * n1, fdt, density=rng.choice([0.1, 0.2]))
+                y0, x0 = rng.randint(0, n0 - t0), rng.randint(0, n1 - t1)
+                T = np.array(data, dtype=object).reshape(n0, n1)[y0:y0 + t0, x0:x0 + t1]
+                out.append(dict(kind='find', dtype=fdt, shape=[n0, n1], data=data, bshape=[t0, t1],
+                                bc=[int(v) for v in T.ravel().tolist()], layout=layout, tag='random', values='huge'))
+                continue
             out.append(dict(kind='find', dtype=dtype, shape=[n0, n1], data=data, bshape=[t0, t1],
                             bc=[rng.randint(0, 1) for _ in range(t0 * t1)], layout=layout, tag='random'))
     return out
